@@ -121,6 +121,40 @@ func runC11(tier string, seed uint64) {
 				}
 			}
 		}
+		// the same through an explicit version id (memory backend, versioning enabled): an older
+		// and the current version of one key, each read by id with a Range header
+		if kind == "mem" {
+			body := `<VersioningConfiguration xmlns="http://s3.amazonaws.com/doc/2006-03-01/"><Status>Enabled</Status></VersioningConfiguration>`
+			do(h, Req{Method: "PUT", Path: "/" + bucket + "?versioning", Body: []byte(body)})
+			var vids []string
+			datas := [][]byte{c11Body(9), c11Body(5)}
+			for _, d := range datas {
+				r := do(h, Req{Method: "PUT", Path: "/" + bucket + "/versioned", Body: d})
+				vids = append(vids, r.Header.Get("x-amz-version-id"))
+			}
+			for vi, vid := range vids {
+				if vid == "" {
+					continue
+				}
+				for _, hdr := range c11Headers(len(datas[vi]), tier, rng) {
+					var hh [][2]string
+					if hdr != "" {
+						hh = append(hh, [2]string{"Range", hdr})
+					}
+					r := do(h, Req{Method: "GET", Path: "/" + bucket + "/versioned?versionId=" + queryEscape(vid), Header: hh})
+					p := "0"
+					if r.Panic != "" {
+						p = "1"
+					}
+					emit("c11", kind, hs(hdr), hx(datas[vi]), strconv.Itoa(r.Status), hs(errCode(r.Body)),
+						hs(r.Header.Get("Content-Range")), hs(r.Header.Get("Content-Length")), hx(bodyIfOK(r)), p)
+					stat("by-version-id")
+					if r.Header.Get("Content-Range") != "" || r.Status == 416 {
+						nontrivial(kind + "|vid|" + hdr + "|" + strconv.Itoa(vi))
+					}
+				}
+			}
+		}
 		st.Close()
 	}
 }
